@@ -75,7 +75,9 @@ def validate(pdir, wt):
     rc, out = run_demo(pdir, wt, meta)
     res["demo_fails_with_change"] = rc != 0
     res["demo_with"] = out[-600:]
-    sh("git checkout -- .", cwd=wt)
+    sh("git checkout -- . && git clean -fdq -e _b", cwd=wt)      # a patch may ADD files (a shadowing header): remove them too
+    if "new file mode" in open(os.path.join(pdir, "patch.diff")).read():
+        sh("rm -rf %s/_b" % wt)                                  # ninja's dependency files do not notice a header that disappears from the include path
     build_wt(wt)
     rc, out = run_demo(pdir, wt, meta)
     res["demo_passes_without"] = rc == 0
@@ -113,7 +115,7 @@ def detect(pdir, ids):
                     except Exception:
                         pass
     finally:
-        sh("git -C %s checkout -- ." % EVAL_REPO)
+        sh("git -C %s checkout -- . && git -C %s clean -fdq -e _build -e _b" % (EVAL_REPO, EVAL_REPO))
         restore_evidence(keep)
     return res
 
